@@ -933,6 +933,9 @@ impl<'s> Tokenizer<'s> {
     }
 }
 
+/// The largest number (width, precision, argument index) a format string can contain.
+const MAX_FORMAT_NUMBER: usize = i16::MAX as usize;
+
 fn parse_number(cursor: &mut Cursor) -> Result<Option<usize>, Error> {
     let digit_count = cursor
         .rest_bytes()
@@ -953,6 +956,17 @@ fn parse_number(cursor: &mut Cursor) -> Result<Option<usize>, Error> {
             )
             .with_source(e)
         }));
+        // widths and precisions become the size of the padding and parameters of
+        // the formatting machinery, which supports less than 16 bits for them.
+        if num > MAX_FORMAT_NUMBER {
+            return Err(Error::new(
+                ErrorKind::InvalidOperation,
+                format!(
+                    "number in the format string at offset {} is too large",
+                    cursor.position()
+                ),
+            ));
+        }
         Ok(Some(num))
     }
 }
